@@ -4,7 +4,7 @@
 (* handles in creation order for the scripts, carries the history.             *)
 EXTENDS GraphStore, TLC, Json
 
-CONSTANTS MaxHist, UseKF     \* UseKF: also take the KF_ deviation actions (self-test / witness search)
+CONSTANTS MaxHist, Full, UseKF     \* UseKF: also take the KF_ deviation actions (self-test / witness search)
 
 VARIABLES freeN, freeE, nextN, nextE,   \* allocation state (implementation-shaped)
           hN, hE,                       \* handle -> id, in creation order (history)
@@ -51,6 +51,28 @@ DoCreateEdgeStub ==
         /\ CreateEdgeStub(AllocE, s, d, t) /\ TakeE /\ hE' = Append(hE, AllocE)
         /\ UNCHANGED <<freeN, nextN, hN>>
         /\ H([op |-> "CreateEdgeStub", s |-> HandleN(s), d |-> HandleN(d), t |-> t])
+DoCreateEdgeP ==
+    \E s \in KnownN, d \in KnownN, t \in Types, v \in Vals :
+        LET ok == LiveN(s) /\ LiveN(d) IN
+        /\ ok => AllocE <= MaxE
+        /\ CreateEdgeP(AllocE, s, d, t, v, ok)
+        /\ IF ok THEN TakeE /\ hE' = Append(hE, AllocE) ELSE UNCHANGED <<freeE, nextE, hE>>
+        /\ UNCHANGED <<freeN, nextN, hN>>
+        /\ H([op |-> "CreateEdgeP", s |-> HandleN(s), d |-> HandleN(d), t |-> t, v |-> v])
+DoCreateNodeStub ==
+    \E lb \in Labels :
+        /\ AllocN <= MaxN
+        /\ CreateNodeStub(AllocN, lb) /\ TakeN /\ hN' = Append(hN, AllocN)
+        /\ UNCHANGED <<freeE, nextE, hE>>
+        /\ H([op |-> "CreateNodeStub", label |-> lb])
+DoSetColumnProp ==
+    \E n \in KnownN, v \in Vals :
+        LiveN(n) /\ SetColumnProp(n, v) /\ NoAlloc /\ H([op |-> "SetColumnProp", n |-> HandleN(n), v |-> v])
+DoRemoveEdgeProp ==
+    \E e \in KnownE : RemoveEdgeProp(e) /\ NoAlloc /\ H([op |-> "RemoveEdgeProp", e |-> HandleE(e)])
+DoClear ==
+    /\ Clear /\ freeN' = <<>> /\ freeE' = <<>> /\ nextN' = 1 /\ nextE' = 1 /\ UNCHANGED <<hN, hE>>
+    /\ H([op |-> "Clear"])
 DoDeleteEdge ==
     \E e \in KnownE :
         /\ \/ DeleteEdge(e, LiveE(e))
@@ -84,6 +106,7 @@ DoSetEdgeProp ==
         SetEdgeProp(e, v, LiveE(e)) /\ NoAlloc /\ H([op |-> "SetEdgeProp", e |-> HandleE(e), v |-> v])
 
 Next == \/ DoCreateNode \/ DoCreateEdge \/ DoCreateEdgeStub \/ DoDeleteEdge \/ DoDeleteNode
+        \/ DoCreateEdgeP \/ DoCreateNodeStub \/ DoSetColumnProp \/ DoRemoveEdgeProp \/ (Full /\ DoClear)
         \/ DoCompact \/ DoFinish \/ DoSetNodeProp \/ DoRemoveNodeProp \/ DoAddLabel \/ DoRemoveLabel \/ DoSetEdgeProp
 Spec == Init /\ [][Next]_vars
 
